@@ -111,6 +111,37 @@ pub fn run(ctx: &mut Ctx) {
             one(ctx, &p2, &w2, "mutated");
         }
     }
+    // witness types from the zoo (sums with equal-width branches padded on one or both sides):
+    // libsimplicity reads the witness stream with its own type-directed reader
+    {
+        let mut done = 0;
+        let want = ctx.scale(120, 4000);
+        for _ in 0..20 * want {
+            if done >= want {
+                break;
+            }
+            let k = 1 + ctx.rng.below(3) as usize;
+            let mut tys: Vec<gen::T> = (0..k)
+                .map(|_| {
+                    let d = 1 + ctx.rng.below(3) as usize;
+                    gen::gen_t_zoo(&mut ctx.rng, d)
+                })
+                .collect();
+            if ctx.rng.bool() {
+                tys.push(gen::T::word(ctx.rng.below(4) as u32));
+            }
+            if tys.iter().any(|t| t.size() > 24) {
+                continue;
+            }
+            let plan = gen::witness_zoo_plan(&mut ctx.rng.fork(), &tys);
+            let Ok(Ok((red, _))) = catch(|| gen::redeem_of_plan(&plan, &mut ctx.rng.fork(), true)) else { continue };
+            done += 1;
+            let (pb, wb) = red.to_vec_with_witness();
+            one(ctx, &pb, &wb, "witness-zoo");
+            let w2 = codec::mutate(&mut ctx.rng, &wb);
+            one(ctx, &pb, &w2, "witness-zoo-mutated");
+        }
+    }
     // witness values of every bit length (each witness is hashed on its own into AMR and IHR: all
     // block and padding boundaries of that hash), random values
     let lens: Vec<usize> = if !ctx.quick() {
